@@ -9,6 +9,7 @@ def run(check):
     check.guarded("INVENTORY", X.rule_inventory)
     check.guarded("FANOUT", X.rule_fanout)
     check.guarded("NOTHING-DROPPED", X.rule_nothing_dropped)
+    check.guarded("GROUP", X.rule_hoist_paren)
     check.guarded("PRINT-ARGS", c09.rule_print_args)
     return {
         "explanation": "Inventory of every AST node kind constructed in the build against the documented instrumentation shapes, per-function single-use (fan-out) analysis of input sub-trees copied into constructed output, completeness of operand processing, and the print path.",
